@@ -837,6 +837,13 @@ func (vfs *OrefaFS) Rename(oldname, newname string) error {
 		defer oParent.mu.Unlock()
 	}
 
+	// The file replaced by the rename loses this name.
+	if nChildOk {
+		nChild.mu.Lock()
+		nChild.remove()
+		nChild.mu.Unlock()
+	}
+
 	nParent.addChild(nFileName, oChild)
 
 	delete(oParent.children, oFileName)
